@@ -496,3 +496,65 @@ Theorem C11_approx_normal_pivots_nonzero_Q : forall (p r c : nat) (uk : list Q),
 Proof. exact approx_normal_pivots_nonzero_Q. Qed.
 Print Assumptions C11_approx_normal_pivots_nonzero_Q.
 
+(* ====================== TRANSLATOR TIE (Proofs/GenTie*.v) ======================
+   coq/Gen/*.v is the Gallina rendering of the Python source produced by harness/pytrans.py; every run of ./check regenerates it
+   from /repo and compares it function by function with the committed text (evidence: translator_tie).  The theorems below say
+   that the hand-written model (the subject of the theorems above) computes, for ALL inputs satisfying the stated
+   well-formedness, exactly what the translated source computes.  This block stays LAST in the file: its imports shadow
+   model names. *)
+From Coq Require Import List QArith Reals Qreals Lia Lra Arith Bool ZArith.
+From NV Require Import Scalar.Ops Model.Common Model.Basis Model.Knots Model.KnotIns Model.KnotRem Model.LinAlg Model.Degree
+  Gen.Prelude Gen.LinalgInternal Gen.Linalg Gen.Knotvector Gen.Helpers
+  Proofs.GenTieSums Proofs.GenTieLinAlg Proofs.GenTieSubst Proofs.GenTieLU Proofs.GenTieLUSolve Proofs.GenTieKnotRem Proofs.GenTieDegree
+  Proofs.GenTieLib Proofs.GenTieKnots Proofs.GenTieSpan Proofs.GenTieBasis Proofs.GenTieBasisOne
+  Proofs.GenTieDersOne Proofs.GenTieDersLib Proofs.GenTieDers Proofs.GenTieKnotIns.
+Local Open Scope nat_scope.
+
+From NV Require Import Model.Fit Gen.Fitting Proofs.GenTieFit.
+
+(* [G] fitting.compute_knot_vector; wf: num_points <= len(params) + 1 (the parameters read are params[1 .. num_points-2]) *)
+Theorem C11_gen_compute_knot_vector_R : forall (p n : nat) (params : list R), n <= S (length params) ->
+  Fitting.compute_knot_vector Rops (Z.of_nat p) (Z.of_nat n) params = GOk (Fit.compute_knot_vector Rops p n params).
+Proof. exact compute_knot_vector_tie_R. Qed.
+Print Assumptions C11_gen_compute_knot_vector_R.
+Theorem C11_gen_compute_knot_vector_Q : forall (p n : nat) (params : list Q), n <= S (length params) ->
+  Fitting.compute_knot_vector Qops (Z.of_nat p) (Z.of_nat n) params = GOk (Fit.compute_knot_vector Qops p n params).
+Proof. exact compute_knot_vector_tie_Q. Qed.
+Print Assumptions C11_gen_compute_knot_vector_Q.
+
+(* [G] fitting.compute_knot_vector2; d = float(num_dpts) / float(num_cpts - degree) is carried as the exact rational;
+   wf: degree < num_cpts, num_cpts - degree <= num_dpts <= len(params) *)
+Theorem C11_gen_compute_knot_vector2_R : forall (p r c : nat) (params : list R),
+  p < c -> c - p <= r -> r <= length params ->
+  Fitting.compute_knot_vector2 Rops (Z.of_nat p) (Z.of_nat r) (Z.of_nat c) params = GOk (Fit.compute_knot_vector2 Rops p r c params).
+Proof. exact compute_knot_vector2_tie_R. Qed.
+Print Assumptions C11_gen_compute_knot_vector2_R.
+Theorem C11_gen_compute_knot_vector2_Q : forall (p r c : nat) (params : list Q),
+  p < c -> c - p <= r -> r <= length params ->
+  Fitting.compute_knot_vector2 Qops (Z.of_nat p) (Z.of_nat r) (Z.of_nat c) params = GOk (Fit.compute_knot_vector2 Qops p r c params).
+Proof. exact compute_knot_vector2_tie_Q. Qed.
+Print Assumptions C11_gen_compute_knot_vector2_Q.
+
+(* [G] fitting.compute_params_curve (centripetal = False): linalg.point_distance is the uninterpreted argument `dist` of the
+   generated function; for EVERY total dist (dm = its value) the source computes what the model computes from the chords
+   dm(points[i+1], points[i]); ZeroDivisionError (chords sum to 0) <-> Crash; wf: at least one point *)
+Theorem C11_gen_compute_params_curve_R : forall (pts : list (list R)) (dist : list R -> list R -> gres R) (dm : list R -> list R -> R),
+  (forall a b, dist a b = GOk (dm a b)) -> pts <> [] ->
+  Fitting.compute_params_curve__centripetal_false Rops pts dist =
+  res_to_gres (fun x => x) ValueError ZeroDivisionError
+    (Fit.compute_params_curve Rops (map (fun i => dm (nth (S i) pts []) (nth i pts [])) (seq O (length pts - 1)))).
+Proof. exact compute_params_curve_tie_R. Qed.
+Print Assumptions C11_gen_compute_params_curve_R.
+Theorem C11_gen_compute_params_curve_Q : forall (pts : list (list Q)) (dist : list Q -> list Q -> gres Q) (dm : list Q -> list Q -> Q),
+  (forall a b, dist a b = GOk (dm a b)) -> pts <> [] ->
+  Fitting.compute_params_curve__centripetal_false Qops pts dist =
+  res_to_gres (fun x => x) ValueError ZeroDivisionError
+    (Fit.compute_params_curve Qops (map (fun i => dm (nth (S i) pts []) (nth i pts [])) (seq O (length pts - 1)))).
+Proof. exact compute_params_curve_tie_Q. Qed.
+Print Assumptions C11_gen_compute_params_curve_Q.
+
+Example C11_gen_nonvacuous :
+  Fitting.compute_knot_vector Qops 3 6 [0; 1#8; 3#8; 1#2; 3#4; 1]%Q = GOk [0; 0; 0; 0; 1#3; 13#24; 1; 1; 1; 1]%Q
+  /\ Fitting.compute_knot_vector2 Qops 2 5 4 [0; 1#8; 3#8; 1#2; 3#4; 1]%Q = GOk [0; 0; 0; 1#4; 1; 1; 1]%Q
+  /\ Fit.compute_knot_vector2 Qops 2 5 4 [0; 1#8; 3#8; 1#2; 3#4; 1]%Q = [0; 0; 0; 1#4; 1; 1; 1]%Q.
+Proof. repeat split; vm_compute; reflexivity. Qed.
